@@ -27,37 +27,65 @@ from lib.common import enc_list, enc_str
 # part 1: patch()
 # ----------------------------------------------------------------------------------------------
 
-LOADED, LAZY, MISSING = "c20_loaded_mod", "c20_lazy_mod", "c20_missing_mod"
+LOADED, LAZY, MISSING, LOCAL = "c20_loaded_mod", "c20_lazy_mod", "c20_missing_mod", "c20_local_mod"
 # abstract slot (module id, attribute id) -> python target string
 SLOT_NAMES = {
     (0, 0): "snowflake.connector.connect", (1, 0): "snowflake.connector.pandas_tools.write_pandas",
     (2, 0): f"{LOADED}.connect", (2, 1): f"{LOADED}.write_pandas", (2, 2): f"{LOADED}.other", (2, 3): f"{LOADED}.zero",
-    (2, 4): f"{LOADED}.umock", (2, 9): f"{LOADED}.nope",
-    (3, 0): f"{LAZY}.connect", (3, 1): f"{LAZY}.write_pandas", (3, 2): f"{LAZY}.other", (3, 3): f"{LAZY}.zero", (3, 9): f"{LAZY}.nope",
+    (2, 4): f"{LOADED}.umock", (2, 5): f"{LOADED}.sf_connect", (2, 6): f"{LOADED}.sf_write_pandas", (2, 9): f"{LOADED}.nope",
+    (3, 0): f"{LAZY}.connect", (3, 1): f"{LAZY}.write_pandas", (3, 2): f"{LAZY}.other", (3, 3): f"{LAZY}.zero", (3, 4): f"{LAZY}.sf_connect",
+    (3, 9): f"{LAZY}.nope",
+    (4, 0): f"{LOCAL}.connect", (4, 1): f"{LOCAL}.write_pandas",
     (9, 0): f"{MISSING}.x",
 }
-KINDS = [(0, 0), (2, 0), (2, 1), (2, 2), (2, 3), (2, 4), (2, 9), (3, 0), (3, 1), (3, 2), (3, 9), (9, 0)]
+KINDS = [(0, 0), (2, 0), (2, 1), (2, 2), (2, 3), (2, 4), (2, 5), (2, 6), (2, 9), (3, 0), (3, 1), (3, 2), (3, 4), (3, 9), (4, 0), (4, 1), (9, 0)]
 KIND_LABEL = {(0, 0): "standard(dup)", (2, 0): "from-import connect", (2, 1): "from-import write_pandas", (2, 2): "non-snowflake fn",
-              (2, 3): "falsy attr", (2, 4): "already a MagicMock", (2, 9): "missing attr", (3, 0): "lazy module connect",
-              (3, 1): "lazy module write_pandas", (3, 2): "lazy module non-snowflake", (3, 9): "lazy module missing attr",
-              (9, 0): "missing module"}
-OBSERVED = [(0, 0), (1, 0), (2, 0), (2, 1), (2, 2), (2, 3), (2, 4), (3, 0), (3, 1), (3, 2), (3, 3)]
-ENV0 = "0.0=Rc;1.0=Rw;2.0=Rc;2.1=Rw;2.2=O1;2.3=F;2.4=U"
-LOADED0 = "0;1;2"
-IMPORTABLE0 = "3:0=Sc,1=Sw,2=O2,3=F"
+              (2, 3): "falsy attr", (2, 4): "already a MagicMock", (2, 5): "aliased from-import connect", (2, 6): "aliased from-import write_pandas",
+              (2, 9): "missing attr", (3, 0): "lazy module connect", (3, 1): "lazy module write_pandas", (3, 2): "lazy module non-snowflake",
+              (3, 4): "lazy module aliased connect", (3, 9): "lazy module missing attr",
+              (4, 0): "non-snowflake fn named connect", (4, 1): "non-snowflake fn named write_pandas", (9, 0): "missing module"}
+# second block of the re-entry pairs: one representative per way a target can behave
+PAIR_SECOND = [(), ((2, 0),), ((2, 5),), ((3, 0),), ((3, 4),), ((4, 0),), ((2, 9),), ((9, 0),)]
+OBSERVED = [(0, 0), (1, 0), (2, 0), (2, 1), (2, 2), (2, 3), (2, 4), (2, 5), (2, 6), (3, 0), (3, 1), (3, 2), (3, 3), (3, 4), (4, 0), (4, 1)]
+ENV0 = "0.0=Rc;1.0=Rw;2.0=Rc;2.1=Rw;2.2=O1;2.3=F;2.4=U;2.5=Rc;2.6=Rw;4.0=O3;4.1=O4"
+LOADED0 = "0;1;2;4"
+IMPORTABLE0 = "3:0=Sc,1=Sw,2=O2,3=F,4=Sc"
 
 LOADED_SRC = """from unittest.mock import MagicMock
 from snowflake.connector import connect
+from snowflake.connector import connect as sf_connect
 from snowflake.connector.pandas_tools import write_pandas
+from snowflake.connector.pandas_tools import write_pandas as sf_write_pandas
 def other(): pass
 zero = 0
 umock = MagicMock(name="user")
 """
 LAZY_SRC = """from snowflake.connector import connect
+from snowflake.connector import connect as sf_connect
 from snowflake.connector.pandas_tools import write_pandas
 def other(): pass
 zero = 0
 """
+# functions that merely share their names with the snowflake ones
+LOCAL_SRC = """def connect(*a, **k): return "local connect"
+def write_pandas(*a, **k): return "local write_pandas"
+"""
+
+
+class _Targets(__import__("collections").abc.Sequence):
+    """a Sequence[str] that is neither list nor tuple (extra_targets: str | Sequence[str])"""
+
+    def __init__(self, items):
+        self._items = list(items)
+
+    def __getitem__(self, i):
+        return self._items[i]
+
+    def __len__(self):
+        return len(self._items)
+
+
+FORMS = ["list", "tuple", "seq", "str"]
 
 
 class _Boom(Exception):
@@ -76,6 +104,8 @@ class _PatchWorld:
             f.write(LOADED_SRC)
         with open(os.path.join(self.dir, LAZY + ".py"), "w") as f:
             f.write(LAZY_SRC)
+        with open(os.path.join(self.dir, LOCAL + ".py"), "w") as f:
+            f.write(LOCAL_SRC)
         sys.path.insert(0, self.dir)
         sys.dont_write_bytecode = True
         self.sc, self.pt = snowflake.connector, pt
@@ -84,13 +114,17 @@ class _PatchWorld:
         if isinstance(self.connect, MagicMock):
             raise common.Infra("snowflake.connector.connect is already a mock when the harness starts")
         self.loaded = importlib.import_module(LOADED)
-        self.loaded_attrs = {k: getattr(self.loaded, k) for k in ("connect", "write_pandas", "other", "zero", "umock")}
+        self.loaded_attrs = {k: getattr(self.loaded, k) for k in ("connect", "write_pandas", "other", "zero", "umock", "sf_connect", "sf_write_pandas")}
+        self.local = importlib.import_module(LOCAL)
+        self.local_attrs = {k: getattr(self.local, k) for k in ("connect", "write_pandas")}
 
     def reset(self) -> None:
         self.sc.connect = self.connect
         self.pt.write_pandas = self.write_pandas
         for k, v in self.loaded_attrs.items():
             setattr(self.loaded, k, v)
+        for k, v in self.local_attrs.items():
+            setattr(self.local, k, v)
         sys.modules.pop(LAZY, None)
 
     def code(self, slot) -> str:
@@ -120,6 +154,7 @@ class _PatchWorld:
         self.reset()
         sys.path.remove(self.dir)
         sys.modules.pop(LOADED, None)
+        sys.modules.pop(LOCAL, None)
         shutil.rmtree(self.dir, ignore_errors=True)
 
 
@@ -132,13 +167,14 @@ def _conn_state(conn) -> str:
 
 
 def _real_patch_case(pw: _PatchWorld, case) -> list[dict]:
-    """case = {"runs": [{"extras": [[m,a],…], "exit": "n"|"r", "nested": None|[[m,a],…], "as_str": bool}]}"""
+    """case = {"runs": [{"extras": [[m,a],…], "exit": "n"|"r", "nested": None|[[m,a],…], "form": "list"|"tuple"|"seq"|"str"}]}"""
     import fakesnow
     pw.reset()
     out = []
     for run in case["runs"]:
         names = [SLOT_NAMES[tuple(s)] for s in run["extras"]]
-        arg = names[0] if (run.get("as_str") and len(names) == 1) else names
+        form = run.get("form", "list")
+        arg = {"list": names, "tuple": tuple(names), "seq": _Targets(names), "str": names[0] if len(names) == 1 else names}[form]
         rec = {"inside": "-", "nested": "-", "nested_unchanged": "-", "conn": "-"}
         conn = None
         try:
@@ -188,23 +224,31 @@ def _patch_cases(chk) -> list[dict]:
     rnd = random.Random(chk.seed * 7919 + 1)
     cases = []
 
-    def run(extras, exit_="n", nested=None):
-        return {"extras": [list(s) for s in extras], "exit": exit_, "nested": None if nested is None else [list(s) for s in nested],
-                "as_str": rnd.random() < 0.5}
+    counter = itertools.count()
+
+    def run(extras, exit_="n", nested=None, form=None):
+        # extra_targets: str | Sequence[str] — the container type cycles through list / tuple / other Sequence / bare str
+        if form is None:
+            form = FORMS[next(counter) % (4 if len(extras) == 1 else 3)]
+        return {"extras": [list(s) for s in extras], "exit": exit_, "nested": None if nested is None else [list(s) for s in nested], "form": form}
 
     maxlen = 2 if chk.tier == "quick" else 3
     for L in range(0, maxlen + 1):
         for ex in itertools.product(KINDS, repeat=L):
             for x in "nr":
-                cases.append({"runs": [run(ex, x)]})
+                if L <= 1:     # every container type for the empty and the one-element lists
+                    for f in (FORMS if L == 1 else FORMS[:3]):
+                        cases.append({"runs": [run(ex, x, form=f)]})
+                else:
+                    cases.append({"runs": [run(ex, x)]})
     if chk.tier == "quick":
         for _ in range(100):
             cases.append({"runs": [run([rnd.choice(KINDS) for _ in range(3)], rnd.choice("nr"))]})
-    # re-entry after every way of leaving: all pairs (first: ≤1 extra × exit) then (second: ≤1 extra)
+    # re-entry after every way of leaving: all pairs (first: ≤1 extra × exit) then (second: a representative of each behaviour)
     singles = [()] + [(k,) for k in KINDS]
     for a in singles:
         for x in "nr":
-            for b in singles:
+            for b in PAIR_SECOND:
                 cases.append({"runs": [run(a, x), run(b, "n")]})
     # nesting
     for a in singles:
@@ -237,7 +281,7 @@ def _check_patch(chk, case, real, reply) -> None:
     spec = [r.split("|") for r in common.dec_list(reply["spec"])]
     shipped = [r.split("|") for r in common.dec_list(reply.get("shipped", "[]"))]
     label = " ; ".join(
-        f"patch([{', '.join(SLOT_NAMES[tuple(s)] for s in r['extras'])}]) body {'raises' if r['exit'] == 'r' else 'ends'}"
+        f"patch({r.get('form', 'list')} [{', '.join(SLOT_NAMES[tuple(s)] for s in r['extras'])}]) body {'raises' if r['exit'] == 'r' else 'ends'}"
         + ("" if r["nested"] is None else f" nested patch([{', '.join(SLOT_NAMES[tuple(s)] for s in r['nested'])}])") for r in case["runs"])
     fp = json.dumps(case["runs"], sort_keys=True)
     nontrivial = any(r["extras"] or r["nested"] is not None for r in case["runs"])
@@ -554,8 +598,8 @@ def _check_e2e(chk, args, real, reply) -> None:
 # ----------------------------------------------------------------------------------------------
 
 def run(chk) -> None:
-    chk.rule = ("patch: every list of ≤2 (quick) / ≤3 (thorough) extra targets over 12 target kinds (standard duplicate, from-import aliases, "
-                "non-snowflake function, falsy/missing attribute, already a MagicMock, lazily imported module ×4, missing module) × exit mode; all "
+    chk.rule = ("patch: every list of ≤2 (quick) / ≤3 (thorough) extra targets over 17 target kinds (standard duplicate, from-import aliases, "
+                "aliased from-imports, non-snowflake functions incl. ones named connect/write_pandas, falsy/missing attribute, already a MagicMock, lazily imported module ×5, missing module; extra_targets given as list / tuple / other Sequence / str) × exit mode; all "
                 "pairs of blocks (re-entry after every way of leaving); nested patch(); random histories of 2-4 blocks.  cli: exhaustive argv over "
                 "the 13-token alphabet (pure ≤4/5 tokens, end-to-end ≤3/4 tokens), adversarial tokens, random grammar sentences with up to 5 "
                 "target args.  non-trivial = distinct case with ≥1 extra target / nested block, or argv of ≥2 tokens")
